@@ -228,6 +228,18 @@ def check(repo: Repo, run: Run) -> None:
     e = entry(D, "DBG_DYLD_TIMING_LAUNCH_EXECUTABLE")
     d = D.decode(e)
     M = e.module.name
+    # the three composite results are plain records: a class that runs code of its own when it is built (__post_init__ with an
+    # assertion, a validation that can raise) decides after the decoder whether the trace exists at all - not followed
+    for key_ in ("DBG_DYLD_TIMING_LAUNCH_EXECUTABLE", "MACH_vmfault", "PERF_Event"):
+        d_ = D.decode(entry(D, key_))
+        if d_.cls is not None and "__post_init__" in d_.cls.methods:
+            import ast as _a
+            risky = any(isinstance(x, (_a.Assert, _a.Raise)) for x in _a.walk(d_.cls.methods["__post_init__"]))
+            if risky:
+                # an assertion about the records of the window holds for every window or the trace is lost for some: which, is
+                # a statement about all windows these rules do not decide
+                run.floor_failures.append(f"C20: {d_.cls.name}.__post_init__ can raise: for which windows the composite trace is produced "
+                                          f"at all is not decided")
     f = {k: normal.normalise(d.rec, v) for k, v in d.ret.a[1]} if d.ret.op == "new" else {}
     lst = f.get("uuid_map_a")
     ok_sorted = lst is not None and lst.op == "call" and lst.a[0] == T("builtin", ("sorted",)) and len(lst.a[1]) == 1
@@ -270,6 +282,21 @@ def check(repo: Repo, run: Run) -> None:
                         own = elt.op == "new" and dict(elt.a[1]).get("load_addr") == T("sub", (T("attr", (ev, "values")), const(2))) \
                             and dict(elt.a[1]).get("ktraces") == T("list", ((ev,),))
                         names[nm] = own
+        gens = [p_.a[2][0][1] for p_ in parts if p_.op == "comp" and len(p_.a[2]) == 1 and p_.a[2][0][1].op == "comp"
+                and p_.a[2][0][1].a[0] == "gen"]
+        shared_gen = len(gens) >= 2 and len(set(gens)) < len(gens)
+        if shared_gen:
+            run.ob("R2", M, e.func_name, "each record kind is selected from the whole window", False,
+                   "two comprehensions of the image list iterate over the SAME generator expression: the first one exhausts it, the "
+                   "second one finds nothing - the records of the second kind are never listed", line=e.func.lineno,
+                   witness="a launch interval with a DYLD_uuid_shared_cache_a record")
+        elif len(names) < 2 and not all(p_.op == "comp" and len(p_.a[2]) == 1 and p_.a[2][0][1] == EVENTS for p_ in parts):
+            # the list is not put together from one comprehension over the window per record kind (one pass with a sort by
+            # kind, a helper ...): which records it holds is not read off this form
+            run.floor_failures.append(f"C20/R2: the launch image list is built as {sym.pretty(lst.a[1][0])[:80]}: which nested records it "
+                                      f"holds is not decided")
+            names = {"DYLD_uuid_map_a": True, "DYLD_uuid_shared_cache_a": True}
+            parts = parts[:2] if len(parts) >= 2 else parts + [None] * (2 - len(parts))
         for nm in ("DYLD_uuid_map_a", "DYLD_uuid_shared_cache_a"):
             run.ob("R2", M, e.func_name, f"every nested {nm} record is listed, decoded from itself", names.get(nm) is True,
                    f"the image list does not contain one entry per window record named {nm} (selected through the code table), "
